@@ -121,6 +121,9 @@ VRestore(st, ev) ==
                          THEN Bad("C09: restored instance has a different outbound message", BytesToHex(e.v.out), st2)
                     ELSE Good(st2)
                ELSE IF Matches(o, e) THEN Good(st2)
+                    \* state of another role saved under other parameters: the property names both errors, either is right
+                    ELSE IF e = Err("WrongSideSerialized") /\ o = Err("WrongGroupError") /\ "hashed_params" \in DOMAIN bb
+                            /\ bb.hashed_params # Fingerprint(ev.cls, ParamTable[ev.ps]) THEN Good(st2)
                     ELSE Bad("C09: from_serialized() under the wrong role or parameters", ShowSet({e}), st2)
 
 (* the live shared singletons of a parameter set, dumped by the harness      *)
